@@ -24,7 +24,7 @@ ASSUMPTIONS = [
     "namespace = statham.schema.elements public names + Property + the tree's object classes by name",
     "bound properties are compared after binding the rebuilt wrapper under the same attribute name",
 ]
-BUDGET = {"quick": 300, "thorough": 4000}
+BUDGET = {"quick": 500, "thorough": 5000}
 
 NS = {name: getattr(E, name) for name in
       ["AllOf", "AnyOf", "Array", "Boolean", "Element", "Integer", "Not", "Nothing", "Null",
